@@ -121,7 +121,8 @@ def tojson(v):
     if t is memoryview:
         base = v.obj
         return {'$buf': 'memoryview', 'format': v.format,
-                'of': type(base).__name__, 'hex': v.tobytes().hex()}
+                'of': type(base).__name__, 'hex': v.tobytes().hex(),
+                'shape': list(v.shape) if v.ndim > 1 else None}
     if t is array.array:
         return {'$buf': 'array', 'format': v.typecode,
                 'hex': v.tobytes().hex()}
@@ -140,6 +141,8 @@ def fromjson(j):
         if j.get('of') == 'array':
             return memoryview(array.array(j['format'], raw))
         base = bytearray(raw) if j.get('of') == 'bytearray' else raw
+        if j.get('shape'):
+            return memoryview(base).cast(j['format'], shape=j['shape'])
         return memoryview(base).cast(j['format']) \
             if j['format'] != 'B' else memoryview(base)
     if '$f' in j:
@@ -164,7 +167,9 @@ def fromjson(j):
 def short(v, limit=160):
     """Short printable form for messages (free of object addresses)."""
     if isinstance(v, memoryview):
-        s = 'memoryview(format=%r, %r)' % (v.format, v.tobytes())
+        s = 'memoryview(format=%r%s, %r)' % (
+            v.format, ', shape=%r' % (list(v.shape),) if v.ndim > 1 else '',
+            v.tobytes())
     else:
         s = repr(v)
     return s if len(s) <= limit else s[:limit - 12] + '...(%d)' % len(s)
